@@ -19,6 +19,9 @@ def _gens(quick_num, thorough_num):
         # complete (not sampled) edge cover of pin/unpin histories over two files sharing a chunk, one repeating it
         out.append(dict(mode="edges", spec="NodeGen.tla", cfg="NodeGenFocusF.cfg", depth=5, max=(400 if q else 2000),
                         name="pin2-edgesF (complete)", env={"VERIF_NODEMODE": "pin2"}, timeout=900))
+        # partial holders: the source lacks a data chunk during a download (pyramid intact); then reads, single-chunk reads, retries
+        out.append(dict(mode="edges", spec="NodeGen.tla", cfg="NodeGenFocusD.cfg", depth=(3 if q else 4), max=(60 if q else 700),
+                        name="part-edgesD", env={"VERIF_NODEMODE": "part"}, timeout=900))
         return out
     return dict(quick=g("quick"), thorough=g("thorough"))
 
